@@ -80,7 +80,7 @@ def classify(body, kind):
             return False, 'key function returning %s (no total order)' % rt
         return True, 'key function (one argument) returning %s: ordered by the Ord of the key' % rt
     cfg = CFG(body)
-    E = ExprBuilder(cfg)
+    E = ExprBuilder(cfg, fold_named=True)      # `match a.k.cmp(&b.k) { Equal => .., ord => ord }`: `ord` is the cmp result
     # argument names
     first = 2 if body.kind == 'closure' else 1
     a1 = body.name_of(first) or 'arg%d' % first
